@@ -1,5 +1,6 @@
 import Clover.Driver.Codec
 import Clover.Model.DocFields
+import Clover.Model.Msgpack
 import Clover.Spec.Render
 /-! Line-protocol driver: one JSON case per input line, one canonical result per output line.
     Runs the executable model and the abstract specification side by side. -/
@@ -144,6 +145,14 @@ def handle (st : St) (line : String) : St × String :=
             let v ← parseValue v
             pure (st, showDoc (d.set p v))
           | .error _ => pure (st, (if d.has p then "1 " else "0 ") ++ showValue (d.get p))
+        | "mpenc" => do
+          let d ← parseDoc (← j.getObjVal? "doc")
+          pure (st, toHex (Msgpack.encDocBytes d))
+        | "mpdec" => do
+          let bs ← getHex j "bytes"
+          match Msgpack.decDocBytes bs with
+          | some d => pure (st, "ok " ++ showDoc d)
+          | none => pure (st, "none")
         | "fields" => do
           let d ← parseDoc (← j.getObjVal? "doc")
           let sub ← (← j.getObjVal? "sub").getBool?
